@@ -33,7 +33,7 @@ def do_solve(req):
     imax = req.get('imax')
     out = {'models': [], 'results': []}
     msgs = []
-    prg = clingo.Control(['0'] + req.get('args', []), logger=lambda c, m: msgs.append(str(m)), message_limit=20)
+    prg = clingo.Control([str(req.get('limit', 0))] + req.get('args', []), logger=lambda c, m: msgs.append(str(m)), message_limit=20)
     try:
         with ProgramBuilder(prg) as bld:
             fs, parts = tf.transform(texts, bld.add)
